@@ -663,7 +663,7 @@ class GMMMachine(BaseEstimator):
 
     def load(self, hdf5):
         """Overwrites the current state with those in an `HDF5File` object."""
-        new_self = self.from_hdf5(hdf5)
+        new_self = self.from_hdf5(hdf5, ubm=self.ubm)
         self.__dict__.update(new_self.__dict__)
 
     def save(self, hdf5):
